@@ -186,4 +186,166 @@ theorem dtc_solve {n m p : Nat} {L LB : Mat ℝ m m} {A : Mat ℝ m n} {Kuf : Ma
     _ = toM L * (toM LLB * toM (choSolveM LB (matMul A R))) := by rw [hLtW, hLLB]
     _ = toM L * toM A * toM R := by rw [hz, Matrix.mul_assoc]
 
+/-! ### the whitening of the per-cell branch -/
+
+theorem toM_scaleCols {m n : Nat} (A : Mat ℝ m n) (s : Vector ℝ n) :
+    toM (scaleCols A s) = toM A * Matrix.diagonal (toV s) := by
+  ext i k
+  simp only [toM_apply, scaleCols, el_ofFn, i.isLt, k.isLt, and_self, if_true, Matrix.mul_diagonal, toV_apply]
+
+theorem toM_scaleRows {n c : Nat} (R : Mat ℝ n c) (s : Vector ℝ n) :
+    toM (scaleRows R s) = Matrix.diagonal (toV s) * toM R := by
+  ext i k
+  simp only [toM_apply, scaleRows, el_ofFn, i.isLt, k.isLt, and_self, if_true, Matrix.diagonal_mul, toV_apply]
+  ring
+
+theorem toM_addEye {m : Nat} (A : Mat ℝ m m) : toM (addEye A) = toM A + 1 := by
+  ext i k
+  simp only [toM_apply, addEye, el_ofFn, i.isLt, k.isLt, and_self, if_true, Matrix.add_apply, Matrix.one_apply]
+  by_cases h : i = k
+  · subst h; simp
+  · have : ¬ (i.val = k.val) := fun hh => h (Fin.ext hh)
+    simp [h, this]
+
+/-- Over ℝ the floored variance is `max(σᵢ², jitter)`. -/
+theorem cellVariance_real {n : Nat} (v : Vector ℝ n) (jitter : ℝ) (i : Nat) :
+    cellVariance v jitter i = max (v.nth i * v.nth i) jitter := by
+  unfold cellVariance
+  simp only
+  split_ifs with h
+  · exact (max_eq_right (le_of_lt h)).symm
+  · exact (max_eq_left (not_lt.mp h)).symm
+
+theorem cellVariance_nonneg {n : Nat} (v : Vector ℝ n) (jitter : ℝ) (i : Nat) : 0 ≤ cellVariance v jitter i := by
+  rw [cellVariance_real]
+  exact le_trans (mul_self_nonneg _) (le_max_left _ _)
+
+/-- `D^-1/2 · D^-1/2 = D⁻¹` with `D = diag(max(σᵢ², jitter))` (no sign condition on `jitter`: `σᵢ² ≥ 0`). -/
+theorem cellScale_sq {n : Nat} (v : Vector ℝ n) (jitter : ℝ) :
+    Matrix.diagonal (toV (cellScale v jitter)) * Matrix.diagonal (toV (cellScale v jitter))
+      = Matrix.diagonal (fun i : Fin n => (max (v.nth i * v.nth i) jitter)⁻¹) := by
+  rw [Matrix.diagonal_mul_diagonal]
+  congr 1
+  funext i
+  simp only [toV_apply, cellScale, nth_vecOfFn, i.isLt, if_true, sqrt_real]
+  rw [← cellVariance_real v jitter i]
+  have h0 := cellVariance_nonneg v jitter i
+  rw [one_div, ← mul_inv, Real.mul_self_sqrt h0]
+
+/-! ### `lmCore` / `lmCondInit`: what an accepted construction consists of -/
+
+theorem lmCore_ok {n m d c : Nat} {cov : Cov ℝ} {xu : Mat ℝ m d} {mu jitter : ℝ} {L : Mat ℝ m m}
+    {A : Mat ℝ m n} {r : Mat ℝ n c} {LLB? : Except CondErr (Mat ℝ m m)} {sigmaU : Sigma ℝ n}
+    {ycfU : Option (AnyMat ℝ)} {withUnc : Bool} {s : CondState ℝ m d c}
+    (h : lmCore cov xu mu jitter L A r LLB? sigmaU ycfU withUnc = .ok s) :
+    ∃ LLB LB, LLB? = .ok LLB ∧ chol? LLB = some LB ∧ s.weights = lmWeights L LB A r
+      ∧ s.xb = xu ∧ s.mu = mu ∧ s.cov = cov ∧ s.nObs = n
+      ∧ (withUnc = false → s.L = Option.none ∧ s.W = Option.none)
+      ∧ (withUnc = true → ∃ W, lmUnc L LB A sigmaU ycfU = .ok W ∧ s.L = some L ∧ s.W = some W) := by
+  unfold lmCore at h
+  split at h
+  · cases h
+  · rename_i LLB
+    split at h
+    · cases h
+    · rename_i LB hLB
+      refine ⟨LLB, LB, rfl, hLB, ?_⟩
+      simp only at h
+      cases withUnc with
+      | false =>
+        simp only [Bool.not_false, if_true] at h
+        have hs := (Except.ok.inj h).symm; subst hs
+        exact ⟨rfl, rfl, rfl, rfl, rfl, fun _ => ⟨rfl, rfl⟩, fun hh => by cases hh⟩
+      | true =>
+        simp only [Bool.not_true, Bool.false_eq_true, if_false] at h
+        split at h
+        · cases h
+        · rename_i W hW
+          have hs := (Except.ok.inj h).symm; subst hs
+          exact ⟨rfl, rfl, rfl, rfl, rfl, fun hh => (by cases hh), fun _ => ⟨W, hW, rfl, rfl⟩⟩
+
+/-- Without uncertainty the construction succeeds as soon as `LLB` is there and factorises; the right-hand side
+    does not matter. -/
+theorem lmCore_false_eq {n m d c : Nat} (cov : Cov ℝ) (xu : Mat ℝ m d) (mu jitter : ℝ) (L : Mat ℝ m m)
+    (A : Mat ℝ m n) (r : Mat ℝ n c) {LLB LB : Mat ℝ m m} (sigmaU : Sigma ℝ n) (ycfU : Option (AnyMat ℝ))
+    (hLB : chol? LLB = some LB) :
+    lmCore cov xu mu jitter L A r (.ok LLB) sigmaU ycfU false
+      = .ok { cov := cov, xb := xu, weights := lmWeights L LB A r, mu := mu, jitter := jitter, nObs := n,
+              L := Option.none, W := Option.none } := by
+  unfold lmCore
+  simp only [hLB, Bool.not_false, if_true]
+
+/-- The two branches of `_LandmarksConditional.__init__`. -/
+theorem lmCondInit_ok {n m d c : Nat} {cov : Cov ℝ} {x : Mat ℝ n d} {xu : Mat ℝ m d} {y : Mat ℝ n c} {mu : ℝ}
+    {sigma : Sigma ℝ n} {jitter : ℝ} {ycf : Option (AnyMat ℝ)} {yIsMean withUnc : Bool} {s : CondState ℝ m d c}
+    (h : lmCondInit cov x xu y mu sigma jitter ycf yIsMean withUnc = .ok s) :
+    ∃ L, getL cov xu jitter Option.none = .ok L ∧
+      ((lmPerCell sigma ycf yIsMean = Option.none ∧
+          lmCore cov xu mu jitter L (solveLowerM L (gram cov xu x)) (residual y mu)
+            (lmLLB (matMulT (solveLowerM L (gram cov xu x)) (solveLowerM L (gram cov xu x))) sigma jitter ycf yIsMean)
+            sigma ycf withUnc = .ok s)
+       ∨ (∃ v, lmPerCell sigma ycf yIsMean = some v ∧
+          lmCore cov xu mu jitter L (scaleCols (solveLowerM L (gram cov xu x)) (cellScale v jitter))
+            (scaleRows (residual y mu) (cellScale v jitter))
+            (.ok (addEye (matMulT (scaleCols (solveLowerM L (gram cov xu x)) (cellScale v jitter))
+                                  (scaleCols (solveLowerM L (gram cov xu x)) (cellScale v jitter)))))
+            (.scalar 1) Option.none withUnc = .ok s)) := by
+  unfold lmCondInit at h
+  split at h
+  · cases h
+  · rename_i L hL
+    refine ⟨L, hL, ?_⟩
+    simp only at h
+    split at h
+    · rename_i v hv
+      exact Or.inr ⟨v, hv, h⟩
+    · rename_i hnone
+      exact Or.inl ⟨hnone, h⟩
+
+/-- `K̃_uu = K_uu + jitter·I = L Lᵀ` for the factor of `_get_L(xu, cov_func, jitter)`. -/
+theorem getL_none_LLt {m d : Nat} {cov : Cov ℝ} {xu : Mat ℝ m d} {jitter : ℝ} {L : Mat ℝ m m}
+    (hL : getL cov xu jitter Option.none = .ok L) :
+    LowerNonsing L ∧ toM L * (toM L)ᵀ = toM (gram cov xu xu) + jitter • (1 : Matrix (Fin m) (Fin m) ℝ) := by
+  obtain ⟨Kuu', hKuu', hchol⟩ := getL_spec hL
+  rw [addVariance_none] at hKuu'
+  have hKuu : Kuu' = stabilize (gram cov xu xu) jitter := (Except.ok.inj hKuu').symm
+  subst hKuu
+  have hsymU : (toM (stabilize (gram cov xu xu) jitter)).IsSymm :=
+    addVariance_symm cov xu jitter Option.none (addVariance_none _ _)
+  have hLLt := hchol.mul_transpose hsymU
+  rw [toM_stabilize] at hLLt
+  exact ⟨hchol.lowerNonsing, hLLt⟩
+
+/-- `W` of the DTC family: the noise factor `F` (one row per cell) pushed through the solve of the weights. -/
+theorem lmUnc_spec {n m : Nat} {L LB : Mat ℝ m m} {A : Mat ℝ m n} {sigmaU : Sigma ℝ n} {ycfU : Option (AnyMat ℝ)}
+    {W : AnyMat ℝ} (h : lmUnc L LB A sigmaU ycfU = .ok W) :
+    ∃ F : AnyMat ℝ, sigmaToYCovFactor sigmaU ycfU = .ok F ∧ F.r = n ∧ W.c = F.c
+      ∧ (Mat.ofFn (n := m) (m := F.c) fun i k => W.el i k)
+          = lmWeights L LB A (Mat.ofFn (n := n) (m := F.c) fun i k => F.el i k) := by
+  unfold lmUnc at h
+  split at h
+  · cases h
+  · rename_i F hF
+    split at h
+    · cases h
+    · rename_i AF hAF
+      have hWW := (Except.ok.inj h).symm; subst hWW
+      unfold matMulAny at hAF
+      split at hAF
+      · cases hAF
+      · rename_i hFr
+        have hFr' : F.r = n := by simpa using hFr
+        have hAFeq := (Except.ok.inj hAF).symm; subst hAFeq
+        refine ⟨F, hF, hFr', rfl, ?_⟩
+        have hAF : (Mat.ofFn (n := m) (m := F.c) fun i k => nsum n fun t => A.el i t * F.el t k)
+            = matMul A (Mat.ofFn (n := n) (m := F.c) fun i k => F.el i k) := by
+          apply mat_ext
+          intro i k hi hk
+          simp only [matMul, el_ofFn, hi, hk, and_self, if_true]
+          apply nsum_congr
+          intro t ht
+          simp [ht]
+        simp only [AnyMat.el] at hAF
+        simp only [solveUpperTAny, choSolveAny, AnyMat.el, ofFn_el, lmWeights, hAF]
+
 end Mellon
